@@ -256,7 +256,12 @@ pub fn gen_text(rng: &mut Rng, mode: &str) -> Vec<u32> {
                 if rng.chance(1, 2) { t.push(pick_char(rng, WS)); }
             }
             let npairs = rng.range(1, 3);
-            for _ in 0..npairs {
+            // sometimes the pair sits in an embedding that is closed right after the closing bracket and
+            // followed, at the same level, by an override: the NSM after the bracket then has an
+            // overridden type but is still "originally NSM"
+            let wrap = rng.chance(1, 5);
+            if wrap { t.push(*rng.pick(&[LRE_C, RLE_C])); let c = *rng.pick(&strongs); t.push(pick_char(rng, c)); }
+            for pi in 0..npairs {
                 let k = rng.below(OPEN_BRACKETS.len());
                 let k2 = if rng.chance(1, 8) { rng.below(OPEN_BRACKETS.len()) } else { k };
                 if rng.chance(1, 4) { t.push(*rng.pick(pool(BN))); }
@@ -273,6 +278,7 @@ pub fn gen_text(rng: &mut Rng, mode: &str) -> Vec<u32> {
                     t.push(PDI_C);
                 }
                 t.push(CLOSE_BRACKETS[k2]);
+                if wrap && pi + 1 == npairs { t.push(PDF_C); t.push(*rng.pick(&[LRO_C, RLO_C, LRE_C, RLE_C])); }
                 for _ in 0..rng.range(0, 2) { let c = *rng.pick(&[NSM, NSM, BN]); t.push(*rng.pick(pool(c))); }
                 if rng.chance(1, 2) { let c = *rng.pick(&[WS, ON, CS]); t.push(*rng.pick(pool(c))); }
                 if rng.chance(2, 3) {
